@@ -92,6 +92,7 @@ TAlloc ==
           ELSE Alloc(Ev.pod, reqs, required, Ev.result.ok, Ev.result.alloc, Ev.commit) /\ ObsOK
 
 TUnreserve == IsEvent("unreserve") /\ Ev.pod \in Pods /\ Unreserve(Ev.pod) /\ ObsOK
+TLateUnreserve == IsEvent("lateUnreserve") /\ Ev.pod \in Pods /\ LateUnreserve(Ev.pod) /\ ObsOK
 TBind      == IsEvent("bind")      /\ Ev.pod \in Pods /\ Bind(Ev.pod) /\ ObsOK
 TTouch     == IsEvent("touch")     /\ Ev.pod \in Pods /\ Touch(Ev.pod) /\ ObsOK
 TReAdd     == IsEvent("readd")     /\ Ev.pod \in Pods /\ ReAdd(Ev.pod) /\ ObsOK
@@ -112,7 +113,7 @@ TRestart   == IsEvent("restart") /\ Restart /\ ObsOK
 
 TraceInit == \E i \in Starts : TraceStart(i) /\ Init
 TraceNext == \/ TInventory \/ TInvalidate \/ TCreate \/ TAlloc \/ TUnreserve \/ TBind \/ TTouch \/ TReAdd
-             \/ TReDelete \/ TAnnotate \/ TTerminate \/ TUnassign \/ TDelete \/ TAdd \/ TRestart
+             \/ TReDelete \/ TAnnotate \/ TTerminate \/ TUnassign \/ TDelete \/ TAdd \/ TRestart \/ TLateUnreserve
              \/ (SegDone /\ UNCHANGED vars)
 TraceSpec == TraceInit /\ [][TraceNext]_<<vars, tvars>>
 =============================================================================
